@@ -101,7 +101,7 @@ void generate(uint64_t seed, const Str& profile, Desc& d, bool exceptions) {
     if (profile == "lifecycle") { f.exampleFilters = true; f.throws = exceptions; f.cfail = true; f.pluginErr = true; f.plugins = true; f.clockFaults = true; f.order = true; }
     else if (profile == "selection") { f.filters = true; f.alphaNames = true; f.order = true; f.cfail = true; f.clockFaults = true; }
     else if (profile == "leaks") { f.leaks = true; f.cfail = true; f.throws = exceptions; f.pluginErr = true; f.plugins = true; }
-    else if (profile == "pointers") { f.ptrs = true; f.cfail = true; f.throws = exceptions; f.overflowPtr = true; f.order = true; }
+    else if (profile == "pointers") { f.ptrs = true; f.plugins = true; f.cfail = true; f.throws = exceptions; f.overflowPtr = true; f.order = true; }
     else if (profile == "junit") { f.junit = true; f.special_xml = true; f.cfail = true; f.throws = exceptions; f.clockFaults = true; f.pluginErr = true; f.plugins = true; }
     else if (profile == "teamcity") { f.teamcity = true; f.special_tc = true; f.cfail = true; f.throws = exceptions; f.order = true; f.clockFaults = true; f.exampleFilters = true; }
     else { f.throws = exceptions; f.cfail = true; }
@@ -195,9 +195,11 @@ void generate(uint64_t seed, const Str& profile, Desc& d, bool exceptions) {
     }
 
     if (f.plugins && world.chance(1, 2)) {
-        int np = (int)world.range(1, 3);
+        int np = (int)world.range(1, world.chance(1, 3) ? 8 : 3);
+        bool removals = world.chance(1, 3);
+        d.p["remove_rev"] = (int64_t)world.below(2);
         for (int p = 0; p < np; p++) {
-            Group P; P.tag = "plugin"; P.args.push_back(world.chance(5, 6)); P.sargs.push_back(sfmt("plug%d", p));
+            Group P; P.tag = "plugin"; P.args.push_back(world.chance(5, 6)); P.args.push_back(removals && world.chance(1, 3)); P.sargs.push_back(sfmt("plug%d", p));
             int n = (int)world.range(0, 3);
             for (int i = 0; i < n; i++) { Op o; o.kind = K_MARK; o.phase = world.chance(1, 2) ? PH_PRE : PH_POST; o.d = ++opLine; P.ops.push_back(o); }
             if (f.pluginErr && world.chance(1, 3)) {
